@@ -176,7 +176,12 @@ class StatusWorkload(Workload):
         bad = []
         for k, v in self.expected.items():
             got = loaded.data.get(k)
-            if got != '%s' % (v,):
+            if k in ('stage-progress', 'total-progress', 'cost', 'current-stage'):
+                # values the program computes with (a restarted run goes on from the file): the number, not its text;
+                # no stage is None, not the text 'None'
+                if got != v or isinstance(got, str) != isinstance(v, str):
+                    bad.append((k, v, got))
+            elif got != '%s' % (v,):
                 bad.append((k, v, got))
         if 'error-description' not in self.expected and 'error-description' in loaded.data:
             bad.append(('error-description', None, loaded.data['error-description']))
@@ -537,7 +542,7 @@ def char_class(value):
     """what makes a free-text value special (first match wins); part of the violation signature so that a known
     limit for one class of characters does not hide a failure for another"""
     if not isinstance(value, str):
-        return 'typed'
+        return 'typed-value-read-back-as-text'
     if '\r' in value:
         return 'carriage-return'
     if value != value.strip() or value == '':
